@@ -67,7 +67,10 @@ def dtype? : Term → Option DType
   | .atom "float32" => some .float32 | .atom "float64" => some .float64
   | .atom "float128" => some .float128 | .atom "complex64" => some .complex64
   | .atom "complex128" => some .complex128 | .atom "complex256" => some .complex256
-  | .atom "bytes" => some .bytes | .atom "str" => some .str
+  | .atom s =>
+      if s.startsWith "bytes" then (s.drop 5).toNat?.map DType.bytes
+      else if s.startsWith "str" then (s.drop 3).toNat?.map DType.str
+      else none
   | _ => none
 
 def wcls? : Term → Option WCls
@@ -169,7 +172,7 @@ def showDType (d : DType) : String :=
   | .uint8 => "uint8" | .uint16 => "uint16" | .uint32 => "uint32" | .uint64 => "uint64"
   | .float16 => "float16" | .float32 => "float32" | .float64 => "float64"
   | .float128 => "float128" | .complex64 => "complex64" | .complex128 => "complex128"
-  | .complex256 => "complex256" | .bytes => "bytes" | .str => "str"
+  | .complex256 => "complex256" | .bytes w => s!"bytes{w}" | .str w => s!"str{w}"
 
 def showCls : WCls → String | .np => "np" | .ps => "ps"
 
@@ -202,6 +205,7 @@ partial def showRes : Res → String
   | .prod sp rs => s!"P({if sp then 1 else 0};{showL (rs.map showRes)})"
   | .errValue => "errValue"
   | .errType => "errType"
+  | .outside => "outside"
 
 namespace Term
 
@@ -307,7 +311,7 @@ def doDerive (l : Line) : Option String := do
   | "byaxis" => do
       let idx ← Term.pidx? (← Term.parse (← l.get? "idx"))
       match S with
-      | .tensor t => some (showOS ((t.byaxis idx).map .tensor))
+      | .tensor t => some (showOS ((t.byaxis T idx 0 ((l.nat? "flen").getD 0)).map .tensor))
       | _ => none
   | "indexspace" => do
       let sh ← Term.nats? (← Term.parse (← l.get? "shape"))
